@@ -143,5 +143,24 @@ int main(int argc, char** argv) {
     add(wls[i], P["vabort"], true, {1, 1}, 2, -1, 2, 3);
     add(wls[i], P["chain"], true, {2}, 2, -1, 1, 2);
   }
+  // generated operator programs (see fe_generated_programs): the whole family
+  // on the default worklist in the thorough tier, every 9th in the quick tier
+  {
+    auto gen = fe_generated_programs();
+    for (size_t i = 0; i < gen.size(); ++i) {
+      bool cd = gen[i].needs_cd() || !gen[i].items[0].acq.empty();
+      int qb  = (i % 9 == 4) ? 1 : -1;
+      add(def, gen[i], cd, (i & 1) ? std::vector<int>{1, 1} : std::vector<int>{2},
+          2, qb, 1, 1);
+      if (i % 5 == 0)
+        add(wls[19], gen[i], cd, {2}, 2, -1, 1, 1); // BulkSynchronous
+      if (i % 5 == 1)
+        add(wls[12], gen[i], cd, {1, 1}, 2, -1, 1, 1); // OBIM
+      if (i % 5 == 2)
+        add(wls[6], gen[i], cd, {2}, 2, -1, 1, 1); // PerThreadChunkFIFO
+      if (i % 5 == 3)
+        add(wls[25], gen[i], cd, {2}, 2, -1, 1, 1); // Deterministic
+    }
+  }
   return vf_main(argc, argv, "C01", cases);
 }
